@@ -12,6 +12,7 @@ import json
 import multiprocessing as mp
 import os
 import random
+import shutil
 import signal
 import sys
 import time
@@ -177,12 +178,17 @@ def main(prop: str, tier: str, seed: int, replay: str | None, nproc: int):
     limit = getattr(mod, "TIME_LIMIT", {"quick": 900, "thorough": 3600})[tier]
     signal.signal(signal.SIGALRM, _alarm)
     signal.alarm(int(limit))
+    base = Path("/dev/shm") if Path("/dev/shm").is_dir() else Path(os.environ.get("TMPDIR", "/var/tmp"))
+    run_scratch = base / f"pharmpy-verif-run-{os.getpid()}"
+    run_scratch.mkdir(parents=True, exist_ok=True)
+    os.environ["VERIF_SCRATCH"] = str(run_scratch)
     try:
         return _main(prop, mod, tier, seed, replay, nproc, t_start)
     except Timeout:
         print(f"TIMEOUT property={prop} after {limit}s", flush=True)
         return 2
     finally:
+        shutil.rmtree(run_scratch, ignore_errors=True)
         signal.alarm(0)
 
 
